@@ -388,6 +388,18 @@ func c19Sources(cfg Config, lim c19Limits) ([]ListSource, error) {
 		l := corpus.GenListSized(root.Derive("c19-biglist", i), 100000+i, 40, 25, 300)
 		srcs = append(srcs, ListSource{Spec: &l})
 	}
+	// plain lists just above the sizes at which a writer might switch strategy (batches, worker pools, pre-sized
+	// buffers): what a threshold-triggered path writes must be as deterministic as the ordinary one
+	many := []int{257, 1025, 4097}
+	if cfg.Tier == "thorough" {
+		many = append(many, 10001, 65537, 100001)
+	}
+	if cfg.Tier == "smoke" {
+		many = []int{257}
+	}
+	for _, n := range many {
+		srcs = append(srcs, ListSource{Many: n})
+	}
 	if lim.docLists {
 		docs, err := corpus.LoadTestdata(cfg.Repo)
 		if err != nil {
